@@ -672,6 +672,84 @@ def build(run):
                           sample="remove_indices((0,1),(2,3),[1,0]) == ((), (), (3,2))")
     run.add("index-utils/merge_overlapping+remove_indices", iu_bounded, kind="bounded")
 
+    # ------------------------------------------------------------------ frame: a constructor never modifies its operands
+    # Contract: C(args) returns a node (new or existing) and leaves every argument node exactly as it was.  The dangerous branch is
+    # "__new__ returns one of its arguments": python then runs __init__ on that existing object whenever it is an instance of the
+    # class.  The classes and their arities are read from the real package on every run; the operand pool contains, for each
+    # class, instances of that same class (built by the class itself), so that every `return <parameter>` branch is entered with
+    # an operand on which __init__ would run again.
+    def ctor_frame():
+        import inspect
+        s, t, v, M, N3 = Opq("s"), Opq("t"), Opq("v", (2,)), Opq("M", (2, 2)), Opq("N", (3, 3))
+        si = Opq("u", (), (I,), (2,))
+        pool = [s, t, v, M, N3, si, C.Zero(), C.Zero((2,)), as_ufl(1), as_ufl(2), C.LT(s, t), MultiIndex((I,)), MultiIndex((FixedIndex(0),)),
+                MultiIndex(())]
+        classes = [K for K in C.all_ufl_classes if issubclass(K, C.Operator) and "__new__" in K.__dict__ and not K._ufl_is_abstract_]
+        n_calls = n_same = 0
+        entered = {}
+        bad = {}
+
+        def snap(args):
+            return [(id(o), tuple(id(x) for x in o.ufl_operands), type(o)) for o in args if isinstance(o, C.Operator)]
+        for K in classes:
+            try:
+                params = [p for p in list(inspect.signature(K.__new__).parameters.values())[1:]]
+            except (TypeError, ValueError):
+                continue
+            if any(p.kind in (p.VAR_POSITIONAL, p.VAR_KEYWORD) for p in params):
+                arities = (1, 2)
+            else:
+                arities = (len(params),)
+            inst = []
+            for n in arities:
+                if n > 3:
+                    continue
+                for args in itertools.product(pool, repeat=n):
+                    try:
+                        r = K(*args)
+                    except BaseException:  # noqa: BLE001
+                        continue
+                    try:
+                        key = (r.ufl_shape, r.ufl_free_indices, str(r)[:0])
+                    except BaseException:  # noqa: BLE001
+                        continue
+                    if type(r) is K and not any(r is a for a in args) and len(inst) < 6 and \
+                            key not in [(x.ufl_shape, x.ufl_free_indices, "") for x in inst]:
+                        inst.append(r)
+            for x in inst:
+                for n in arities:
+                    if n > 3:
+                        continue
+                    for pos in range(n):
+                        for others in itertools.product(pool + [x], repeat=n - 1):
+                            if K.__name__ in bad:
+                                break       # the instances of K are corrupted from here on
+                            args = list(others[:pos]) + [x] + list(others[pos:])
+                            before = snap(args)
+                            shown = [str(a)[:80] for a in args]
+                            try:
+                                r = K(*args)
+                            except BaseException:  # noqa: BLE001
+                                r = None
+                            n_calls += 1
+                            if r is not None and any(r is a for a in args) and type(r) is K:
+                                n_same += 1
+                                entered[K.__name__] = entered.get(K.__name__, 0) + 1
+                            if snap(args) != before and K.__name__ not in bad:
+                                bad[K.__name__] = (f"{K.__name__}({', '.join(shown)}) modified one of its operands: the existing node it returned "
+                                                f"was re-initialised (operand tuple now {[tuple(id(y) == id(a) for y in a.ufl_operands) for a in args if isinstance(a, C.Operator)]}, "
+                                                f"True = the node is its own operand)",
+                                                {"class": K.__name__, "operands": shown, "position_of_same_class_instance": pos})
+        if bad:
+            return violated("; ".join(m for m, _ in bad.values()), replay={"cases": [r for _, r in bad.values()]}, reproduced=True, backend="exec")
+        if not n_same:
+            return undecided("no constructor call returned an existing instance of its own class: the pool does not reach the branch")
+        return bounded_ok(n_calls, f"{len(classes)} operator classes with their own __new__, operands from a pool of {len(pool)} (opaque scalars/"
+                          "vectors/matrices, zeros, literals, a condition, multi-indices) plus up to 6 instances of the class itself at every "
+                          f"position; {n_same} calls returned an existing instance of the class ({entered})",
+                          sample=f"Determinant(Determinant(M)) returns the existing node and leaves its operand tuple unchanged; {n_calls} calls")
+    run.add("constructor-frame/operands-unchanged", ctor_frame, kind="bounded")
+
     # ---- canary: a wrong intended operation must be refuted
     def canary():
         a, b = Opq("a"), Opq("b")
